@@ -53,7 +53,9 @@ def classify_sites(sites, allow):
                 # same function and same statement; or, after a renaming of locals, same function and same written field / element
                 # ... or same function and the call of the same listed mutator / parameter-writing function
                 if a["func"] == s["func"] and (a["stmt"] == s["stmt"] or (_lhs_suffix(a["stmt"]) != "" and _lhs_suffix(a["stmt"]) == _lhs_suffix(s["stmt"]))
-                                               or (a.get("kind", "").startswith("call:") and a["kind"] == s["kind"])):
+                                               or (a.get("kind", "").startswith("call:") and a["kind"] == s["kind"])) \
+                        or (a.get("root") and a["root"] == s["root"] and a.get("file") == s["file"]):
+                    # (last form: a package-level table identified by its name and file, whatever the function that fills it is called)
                     cls, reason = "Allowed", a["reason"]
                     used.add(k)
                     break
